@@ -56,6 +56,7 @@ type c14Case struct {
 	Foreign     int     `json:"foreign"`      // number of foreign chains/rules in the nat table
 	Stale       int     `json:"stale"`        // number of stale KUBE-HP-* chains with dangling KUBE-HOSTPORTS rules
 	Target      int     `json:"target"`       // pod used for the Setup/Clean inverse law
+	Repeat      int     `json:"repeat"`       // >= 0: that pod (random ports only) is set up a second time without a teardown in between
 	OccupyIndex int     `json:"occupy_index"` // index of the explicit port the harness occupies for the failure path (-1 none)
 }
 
@@ -81,7 +82,10 @@ func genPMPod(t *rapid.T, name string, ipLast int, portBase *int) pmPod {
 
 func genC14() *rapid.Generator[c14Case] {
 	return rapid.Custom(func(t *rapid.T) c14Case {
-		c := c14Case{OccupyIndex: -1}
+		c := c14Case{OccupyIndex: -1, Repeat: -1}
+		if rapid.IntRange(0, 2).Draw(t, "repeat") == 0 {
+			c.Repeat = rapid.IntRange(0, 5).Draw(t, "repeatPod")
+		}
 		base := 0
 		n := rapid.IntRange(1, 6).Draw(t, "nPods")
 		for i := 0; i < n; i++ {
@@ -303,6 +307,39 @@ func checkC14(c c14Case, r *vcore.Rec) *vcore.Failure {
 			}
 		}
 		all = append(all, ports...)
+	}
+	// ---- a pod set up again without a teardown in between (sandbox re-created before its DEL): the ports handed out by the
+	// second setup are just as real
+	if c.Repeat >= 0 && len(c.Pods) > 0 {
+		idx := c.Repeat % len(c.Pods)
+		p := c.Pods[idx]
+		randomOnly := len(p.Ports) > 0
+		for _, pt := range p.Ports {
+			if pt.Host >= 0 {
+				randomOnly = false // galaxy itself holds an explicit port, opening it again fails: not this scenario
+			}
+		}
+		if randomOnly {
+			ports2 := k8sPorts(p, free)
+			if err := h.OpenHostports(p.Name, true, ports2); err == nil {
+				r.Class("setup_repeated")
+				for _, pt := range ports2 {
+					if pt.HostPort <= 0 {
+						return vcore.Failf("c14:no_port", "pod %s set up a second time: OpenHostports left host port %d for container port %d", p.Name,
+							pt.HostPort, pt.ContainerPort)
+					}
+					if canBind(pt.Protocol, int(pt.HostPort)) {
+						return vcore.Failf("c14:not_held", "host port %d/%s handed out by the second setup of pod %s can be bound by another process",
+							pt.HostPort, pt.Protocol, p.Name)
+					}
+				}
+				helds[idx].ports = ports2
+				all = nil
+				for _, hh := range helds {
+					all = append(all, hh.ports...)
+				}
+			}
+		}
 	}
 	defer func() {
 		for _, hh := range helds {
